@@ -76,9 +76,11 @@ Theorem C20_reducers_are_the_source's :
   (forall x y, @b_min fl fops x y = op_min fops x y) /\
   (forall x y, @b_max fl fops x y = op_max fops x y) /\
   (forall x y, @b_sum_square fl fops x y = op_sum_square fops x y) /\
-  (forall x (y : fl), b_count x y = op_count x y).
+  (forall x (y : fl), b_count x y = op_count x y) /\
+  (* and reduce_1d's dispatch (initial value, reduction of the chunk results) is the one nan_reduce encodes *)
+  Gen.TablesGen.gen_nanops_dispatch = nanops_dispatch.
 Proof.
-  exact (conj (tie_op_sum fops) (conj (tie_op_min fops) (conj (tie_op_max fops) (conj (tie_op_sum_square fops) (@tie_op_count fl))))).
+  exact (conj (tie_op_sum fops) (conj (tie_op_min fops) (conj (tie_op_max fops) (conj (tie_op_sum_square fops) (conj (@tie_op_count fl) tie_nanops_dispatch))))).
 Qed.
 Print Assumptions C20_reducers_are_the_source's.
 
